@@ -1,24 +1,83 @@
-(* C03 — per-run obligation on the translated section table of
-   FistrWriter.write_cnt (translate/c03_cnt.py -> gen/CntSections.v): the
-   sections written from fem_data.constraints — key, header line, which
-   arrays go to write_data, digits of the formats — are the ones the hand
-   model Model.cnt_blocks writes (!BOUNDARY: column-major, dof twice, %.5E;
-   !SPRING: row-major, %5E = 6 digits; !CLOAD: column-major, dof once, 6
-   digits; !FIXTEMP / !CFLUX / !CFLUX, TYPE=PURE: id, value with 12 digits),
-   in this order.  ('pure_cflux' is written by femio but is outside the model:
-   the reader model answers Err on TYPE= of !CFLUX.) *)
-From Coq Require Import String List.
+(* C03 — per-run obligations on the translated section table of
+   FistrWriter.write_cnt (translate/c03_cnt.py -> gen/CntSections.v).
+
+   Sections.v interprets a section table: [write_cnt_of secs c] writes the
+   constraint sections in the order, with the headers and from the arrays the
+   table says, [cnt_of_secs secs fc] rounds binary64 tables with the digits of
+   the table's formats.  Here the table is the one translated from the tree
+   under test on this run:
+   - it is the table the hand model was written for (!BOUNDARY: column-major,
+     dof twice, %.5E; !SPRING: row-major, %5E = 6 digits; !CLOAD: column-major,
+     dof once, 6 digits; !FIXTEMP / !CFLUX / !CFLUX, TYPE=PURE: id, value with
+     12 digits; in this order);
+   - hence the writer interpreted from the translated table is Model.write_cnt,
+     and the round-trip theorems hold for it — from decimal tables and from
+     binary64 tables rounded with the translated digits.
+   ('pure_cflux' is written by femio but is outside the model: no such kind in
+   [cnt]; the reader model answers Err on TYPE= of !CFLUX.) *)
+From Coq Require Import String List ZArith Permutation.
+From FV.C01 Require Import Str Dec.
+From FV.C03 Require Import Model ProofsRows ProofsText Floats ProofsFloats Sections.
+From FV.C03 Require Props.
 From FV.C03.gen Require Import CntSections.
 Import ListNotations.
 Local Open Scope string_scope.
-
-Definition modelled_sections : list (string * string * section_source * list string) :=
-  [("boundary", "!BOUNDARY", SrcGenBoth, ["d"; "E5"]);
-   ("spring", "!SPRING", SrcSpring, ["d"; "E6"]);
-   ("cload", "!CLOAD", SrcGenFirst, ["d"; "E6"]);
-   ("fixtemp", "!FIXTEMP", SrcValues, ["E12"]);
-   ("cflux", "!CFLUX", SrcValues, ["E12"]);
-   ("pure_cflux", "!CFLUX, TYPE=PURE", SrcValues, ["E12"])].
+Set Default Timeout 120.
 
 Theorem C03_cnt_sections_as_modelled : cnt_sections = modelled_sections.
 Proof. vm_compute. reflexivity. Qed.
+
+(* the writer interpreted from the translated table is the hand model *)
+Theorem C03_translated_sections_writer :
+  forall c : cnt, write_cnt_of cnt_sections c = write_cnt c.
+Proof. intros c. rewrite C03_cnt_sections_as_modelled. apply write_cnt_of_modelled. Qed.
+
+(* C03_cnt_roundtrip for the writer interpreted from the translated table *)
+Theorem C03_cnt_roundtrip_translated_sections :
+  forall (pats : list ipat) (ngs : list (string * list Z)) (c : cnt), wf_cnt c = true ->
+  exists ls r, write_cnt_of cnt_sections c = Ok ls /\ read_cnt_with pats ngs ls = Ok r /\
+    r_solution r = c_solution c /\
+    Permutation (opt_presc (r_boundary r)) (opt_presc (c_boundary c)) /\
+    opt_presc (r_spring r) = opt_presc (c_spring c) /\
+    Permutation (opt_presc (r_cload r)) (opt_presc (c_cload c)) /\
+    r_fixtemp r = c_fixtemp c /\ r_cflux r = c_cflux c.
+Proof.
+  intros pats ngs c W. rewrite C03_translated_sections_writer. now apply cnt_roundtrip.
+Qed.
+
+(* binary64 tables, rounded with the digits of the translated formats and
+   written by the writer interpreted from the translated table: the digits are
+   5 / 6 / 6 / 12 / 12 and the prescriptions read back are the rounded ones *)
+Theorem C03_cnt_roundtrip_binary64_translated_sections :
+  forall (pats : list ipat) (ngs : list (string * list Z)) (fc : fcnt), shape_ok fc = true ->
+  exists c ls r, cnt_of_secs cnt_sections fc = Some c /\ c = cnt_of fc /\
+    write_cnt_of cnt_sections c = Ok ls /\ read_cnt_with pats ngs ls = Ok r /\
+    r_solution r = fc_solution fc /\
+    Permutation (opt_presc (r_boundary r)) (opt_fpresc 5 (fc_boundary fc)) /\
+    opt_presc (r_spring r) = opt_fpresc 6 (fc_spring fc) /\
+    Permutation (opt_presc (r_cload r)) (opt_fpresc 6 (fc_cload fc)) /\
+    r_fixtemp r = option_map (dec_values 12) (fc_fixtemp fc) /\
+    r_cflux r = option_map (dec_values 12) (fc_cflux fc).
+Proof.
+  intros pats ngs fc S.
+  destruct (cnt_roundtrip_binary64 pats ngs fc S) as (ls & r & H).
+  exists (cnt_of fc), ls, r. rewrite C03_cnt_sections_as_modelled at 1.
+  rewrite cnt_of_secs_modelled, C03_translated_sections_writer. repeat split; apply H.
+Qed.
+
+(* non-vacuity: the interpreter on the translated table writes the sections of
+   the examples of Props.v, and reads their digits from the table *)
+Example C03_example_sections :
+  match write_cnt_of cnt_sections Props.example_cnt with
+  | Ok ls => firstn 2 (skipn 16 ls)
+  | Err _ => []
+  end = ["!BOUNDARY"; "5,1,1,0.00000E+00"] /\
+  map (digits_of cnt_sections) ["boundary"; "spring"; "cload"; "fixtemp"; "cflux"]
+  = [Some 5; Some 6; Some 6; Some 12; Some 12]%Z /\
+  cnt_of_secs cnt_sections Props.example_fcnt = Some (cnt_of Props.example_fcnt) /\
+  shape_ok Props.example_fcnt = true.
+Proof. vm_compute. repeat split. Qed.
+
+Print Assumptions C03_translated_sections_writer.
+Print Assumptions C03_cnt_roundtrip_translated_sections.
+Print Assumptions C03_cnt_roundtrip_binary64_translated_sections.
